@@ -278,3 +278,4 @@ def run(ctx):
     _codec.rule_offset_sets(ctx, cd, "ser", "R-C01-OFFSET-SET")
     _codec.rule_padding(ctx, cd, "ser", "R-C01-PADDING")
     _codec.rule_pad_body(ctx, cd, "ser", "R-C01-PAD-BODY")
+    _codec.rule_py_align(ctx, cd, pyfront.PyIndex(ctx.root), "ser", "R-C01-PY-ALIGN")
